@@ -7,7 +7,7 @@ cd "$WT" || exit 2
 git checkout -q -- . 
 res() { echo "SEED-CONFIRM $(basename $WD)/$L: $*"; }
 build() { make -j16 >/dev/null 2>$WD/${L}_confirm_build.err; }
-demo() { gcc -w -I$WT/include -I$WT/include/private/autogen -I$WT/include/hwloc/autogen -I$WT/hwloc -I$WT $WD/${L}_demo.c $WT/hwloc/.libs/libhwloc.so -Wl,-rpath,$WT/hwloc/.libs -lm -o $WD/${L}_demo.bin 2>$WD/${L}_confirm_cc.err || return 99; timeout 120 $WD/${L}_demo.bin >$WD/${L}_confirm_demo.out 2>&1; }
+demo() { gcc -w -I$WT/include -I$WT/include/private/autogen -I$WT/include/hwloc/autogen -I$WT/hwloc -I$WT/utils/hwloc -I$WT $WD/${L}_demo.c $WT/hwloc/.libs/libhwloc.so -Wl,-rpath,$WT/hwloc/.libs -lm -lpthread -o $WD/${L}_demo.bin 2>$WD/${L}_confirm_cc.err || return 99; timeout 120 $WD/${L}_demo.bin >$WD/${L}_confirm_demo.out 2>&1; }
 git apply --check $WD/$L.diff || { res "patch does not apply"; exit 1; }
 build || { res "clean build failed"; exit 1; }
 demo; base=$?
